@@ -134,7 +134,7 @@ def _norm(obs, factory):
 @harness(
     "C16",
     dom={"fi": (0, len(FAMILIES) - 1), "cut": (0, max(_LEN) // STRIDE + 1), "end": (0, 4)},
-    split={"fi": "each", "cut": 4},
+    split={"fi": "each", "cut": 8},
     thorough_split={"fi": "each", "cut": 16},
     witnesses=[{"fi": 0, "cut": 2, "end": 0}, {"fi": 2, "cut": 3, "end": 1}, {"fi": 3, "cut": 2, "end": 2}],
     budget={"quick": 300, "thorough": 1800},
